@@ -65,7 +65,9 @@ pub struct Sc {
     pub sel: Vec<(u32, u32)>,
     /// how the library-side writer writes and ends its stream (wt<->wt topology): 0 = SendStream::write_all + finish;
     /// 1 = tokio's AsyncWrite on the SendStream (write_all, flush, shutdown); 2 = bidi only: BiStream::join(send, recv),
-    /// tokio's AsyncWrite on it (write_all, flush, shutdown), the BiStream kept alive until the reader is done
+    /// tokio's AsyncWrite on it (write_all, flush, shutdown), the BiStream kept alive until the reader is done;
+    /// 3 = `SendStream::write` loops, every stream with a priority of its own (`set_priority` / `priority`);
+    /// 4 = bidi: `BiStream` on both sides used through `send_mut()` / `recv_mut()` / its `AsyncRead`, then `split()`
     pub wmode: u8,
 }
 
@@ -134,6 +136,27 @@ pub fn payload(stream: usize, len: usize, content: u8) -> Vec<u8> {
 }
 
 async fn read_all(mut r: RecvStream, mode: ReadMode) -> Result<Vec<u8>, String> {
+    read_all_ref(&mut r, mode).await
+}
+
+/// the reader's side of a bidirectional stream held as a `BiStream`: the native modes go through `recv_mut()`, the tokio
+/// modes through the `BiStream`'s own `AsyncRead`; afterwards the halves are taken apart again and must name one stream
+async fn read_all_joined(mut b: wtransport::stream::BiStream, mode: ReadMode) -> Result<Vec<u8>, String> {
+    if b.send().id() != b.recv().id() {
+        return Err("BiStream::send() and recv() name different streams".into());
+    }
+    let out = match mode {
+        ReadMode::Read(_) | ReadMode::ReadExact(_) => read_all_ref(b.recv_mut(), mode).await?,
+        m => read_all_tokio(&mut b, m).await?,
+    };
+    let (s, r) = b.split();
+    if s.id() != r.id() {
+        return Err("BiStream::split() handed back halves of different streams".into());
+    }
+    Ok(out)
+}
+
+async fn read_all_ref(r: &mut RecvStream, mode: ReadMode) -> Result<Vec<u8>, String> {
     let mut out = vec![];
     match mode {
         ReadMode::Read(b) => {
@@ -164,6 +187,14 @@ async fn read_all(mut r: RecvStream, mode: ReadMode) -> Result<Vec<u8>, String> 
                 }
             }
         }
+        m => read_all_tokio(r, m).await,
+    }
+}
+
+async fn read_all_tokio<R: tokio::io::AsyncRead + Unpin>(mut r: &mut R, mode: ReadMode) -> Result<Vec<u8>, String> {
+    let mut out = vec![];
+    match mode {
+        ReadMode::Read(_) | ReadMode::ReadExact(_) => Err("not a tokio read mode".into()),
         ReadMode::AsyncRead => {
             r.read_to_end(&mut out).await.map_err(|e| format!("AsyncRead: {e:?}"))?;
             Ok(out)
@@ -217,6 +248,10 @@ enum Writer {
     Native(SendStream),
     Tokio(SendStream),
     Joined(wtransport::stream::BiStream),
+    /// `SendStream::write` (which may accept fewer bytes than offered) in a loop
+    Partial(SendStream),
+    /// a `BiStream` used through its accessors: `send_mut().write_all`, `send_mut().finish()`
+    JoinedAcc(wtransport::stream::BiStream),
 }
 
 impl Writer {
@@ -226,12 +261,25 @@ impl Writer {
             Writer::Native(s) => s.write_all(b).await.map_err(|e| format!("write_all: {e:?}")),
             Writer::Tokio(s) => AsyncWriteExt::write_all(s, b).await.map_err(|e| format!("AsyncWrite::write_all: {e:?}")),
             Writer::Joined(s) => AsyncWriteExt::write_all(s, b).await.map_err(|e| format!("BiStream AsyncWrite::write_all: {e:?}")),
+            Writer::Partial(s) => {
+                let mut off = 0;
+                while off < b.len() {
+                    let n = s.write(&b[off..]).await.map_err(|e| format!("write: {e:?}"))?;
+                    if n == 0 || n > b.len() - off {
+                        return Err(format!("write accepted {n} of {} bytes", b.len() - off));
+                    }
+                    off += n;
+                }
+                Ok(())
+            }
+            Writer::JoinedAcc(s) => s.send_mut().write_all(b).await.map_err(|e| format!("BiStream send_mut().write_all: {e:?}")),
         }
     }
     async fn end(&mut self) -> Result<(), String> {
         use tokio::io::AsyncWriteExt;
         match self {
-            Writer::Native(s) => s.finish().await.map_err(|e| format!("finish: {e:?}")),
+            Writer::Native(s) | Writer::Partial(s) => s.finish().await.map_err(|e| format!("finish: {e:?}")),
+            Writer::JoinedAcc(s) => s.send_mut().finish().await.map_err(|e| format!("BiStream send_mut().finish: {e:?}")),
             Writer::Tokio(s) => {
                 s.flush().await.map_err(|e| format!("flush: {e:?}"))?;
                 s.shutdown().await.map_err(|e| format!("shutdown: {e:?}"))
@@ -362,14 +410,29 @@ pub async fn run(sc: Sc) -> Result<String, String> {
                 }
             }
             // (the receive halves on the writers' side are only needed for BiStream::join)
-            let (writers, readers, mut writers_recv): (Vec<SendStream>, Vec<RecvStream>, Vec<RecvStream>) = if sc.reverse {
-                (a_send.into_iter().map(|s| s.unwrap()).collect(), o_recv, if sc.bidi { a_recv.into_iter().map(|r| r.unwrap()).collect() } else { vec![] })
+            let (writers, readers, mut writers_recv, mut readers_send): (Vec<SendStream>, Vec<RecvStream>, Vec<RecvStream>, Vec<SendStream>) = if sc.reverse {
+                (a_send.into_iter().map(|s| s.unwrap()).collect(), o_recv, if sc.bidi { a_recv.into_iter().map(|r| r.unwrap()).collect() } else { vec![] }, o_send)
             } else {
-                (o_send, a_recv.into_iter().map(|r| r.unwrap()).collect(), o_recv)
+                (o_send, a_recv.into_iter().map(|r| r.unwrap()).collect(), o_recv, a_send.into_iter().flatten().collect())
             };
             let mut tasks = vec![];
             for r in readers {
-                tasks.push(tokio::spawn(read_all(r, sc.rmode.clone())));
+                if sc.wmode == 4 && sc.bidi {
+                    let s = readers_send.remove(0);
+                    tasks.push(tokio::spawn(read_all_joined(wtransport::stream::BiStream::join((s, r)), sc.rmode.clone())));
+                } else {
+                    tasks.push(tokio::spawn(read_all(r, sc.rmode.clone())));
+                }
+            }
+            // wmode 3: every writer gets a priority of its own before the first byte; priority() must report it
+            if sc.wmode == 3 {
+                for (i, s) in writers.iter().enumerate() {
+                    let p = [0i32, 7, -3, i32::MAX, i32::MIN, 1][i % 6];
+                    s.set_priority(p);
+                    if s.priority() != p {
+                        return Err(format!("priority() = {} after set_priority({p})", s.priority()));
+                    }
+                }
             }
             let _alive: Vec<Writer>;
             if sc.wmode == 0 {
@@ -379,7 +442,12 @@ pub async fn run(sc: Sc) -> Result<String, String> {
             } else {
                 let ws: Vec<Writer> = writers
                     .into_iter()
-                    .map(|s| if sc.wmode == 2 && sc.bidi { Writer::Joined(wtransport::stream::BiStream::join((s, writers_recv.remove(0)))) } else { Writer::Tokio(s) })
+                    .map(|s| match (sc.wmode, sc.bidi) {
+                        (2, true) => Writer::Joined(wtransport::stream::BiStream::join((s, writers_recv.remove(0)))),
+                        (4, true) => Writer::JoinedAcc(wtransport::stream::BiStream::from((s, writers_recv.remove(0)))),
+                        (3, _) | (4, false) => Writer::Partial(s),
+                        _ => Writer::Tokio(s),
+                    })
                     .collect();
                 _alive = within(60_000, write_streams_with(ws, &payloads, &sc.wparts, sc.order)).await.ok_or("writer did not finish within 60 s (virtual)")??;
             }
@@ -710,7 +778,7 @@ pub fn scenarios(tier: Tier) -> Vec<Sc> {
                     out.push(Sc { client_opens: co, bidi: bi, reverse: rev, len, wparts: wp.clone(), rmode: rm.clone(), small_window: len <= 16384, content: (len % 3) as u8, ..base.clone() });
                     // the tokio AsyncWrite flavours of the writer, on the first read mode
                     if mi == 0 && (len <= 70 || thorough && pi == 0) {
-                        for wmode in if bi { vec![1u8, 2] } else { vec![1u8] } {
+                        for wmode in if bi { vec![1u8, 2, 3, 4] } else { vec![1u8, 3] } {
                             out.push(Sc { client_opens: co, bidi: bi, reverse: rev, len, wparts: wp.clone(), rmode: rm.clone(), small_window: len <= 16384, content: (len % 3) as u8, wmode, ..base.clone() });
                         }
                     }
@@ -727,6 +795,13 @@ pub fn scenarios(tier: Tier) -> Vec<Sc> {
                 for &len in &[1usize, 64, 1500, 5000] {
                     out.push(Sc { client_opens: co, bidi: bi, reverse: rev, len, wparts: write_partitions(len).last().unwrap().clone(), rmode: ReadMode::Read(64), nstreams: n, order, ..base.clone() });
                     out.push(Sc { client_opens: co, bidi: bi, reverse: rev, len, wparts: vec![(len + 1) / 2, len / 2], rmode: ReadMode::ReadExact(3), nstreams: n, order, content: 1, ..base.clone() });
+                    // concurrent streams with different priorities, written with SendStream::write loops; BiStreams on both sides
+                    if len >= 1500 || order == 1 {
+                        out.push(Sc { client_opens: co, bidi: bi, reverse: rev, len, wparts: vec![(len + 1) / 2, len / 2], rmode: ReadMode::Read(500), nstreams: n, order, wmode: 3, ..base.clone() });
+                        if bi {
+                            out.push(Sc { client_opens: co, bidi: bi, reverse: rev, len, wparts: vec![len], rmode: ReadMode::PollFill(100), nstreams: n, order, wmode: 4, ..base.clone() });
+                        }
+                    }
                 }
             }
         }
